@@ -117,6 +117,9 @@ type State struct {
 	isInit   bool
 	symBr    int
 	w        *worker
+	sink     *[]*State // when set, forks of this state are collected here
+	sumDone  bool
+	sumRes   Value
 }
 
 func (s *State) clone() *State {
@@ -204,8 +207,10 @@ func (s *State) newObj(v Value, t types.Type, tag string) int {
 		s.ex.baseNext++
 		id = s.ex.baseNext
 	} else {
-		s.nextObj++
-		id = s.nextObj
+		// ids are unique across all states of a run, so objects created on
+		// different paths can be brought together again (call summaries)
+		s.ex.objCounter++
+		id = s.ex.objCounter
 	}
 	s.heap[id] = &Object{Val: v, Typ: t, Tag: tag}
 	return id
@@ -679,7 +684,7 @@ func (s *State) mergeMany(guards []*smt.Term, vals []Value) (Value, bool) {
 	}
 	same := true
 	for i := 1; i < n; i++ {
-		if vals[i] != vals[0] {
+		if !sameValue(vals[i], vals[0]) {
 			same = false
 			break
 		}
